@@ -171,7 +171,7 @@ impl_sub_by_neg_add!(Linear, Linear);
 
 impl Sum for Linear {
     fn sum<I: Iterator<Item = Self>>(iter: I) -> Self {
-        iter.fold(Linear::from(0), Add::add)
+        iter.fold(Linear::zero(), Add::add)
     }
 }
 
